@@ -300,16 +300,29 @@ def _run_sub_shard(check: Check, sub: SubCheck, tier: str, seed: int, shard: int
         # re-execute from JSON before reporting (DESIGN §5): must fail again
         case = json.loads(json.dumps(best["case"]))
         again = evaluate(case, counting=False)
+        for _ in range(2):
+            if again:
+                break
+            again = evaluate(case, counting=False)  # (cases with real threads are not perfectly repeatable on a loaded machine)
         if again:
             stats["failure"] = {
                 "case": case,
                 "violations": [{"sub": v.sub, "msg": v.msg, "facts": v.facts} for v in again],
             }
         else:
-            stats["errors"].append(
-                "failing case did not reproduce from its JSON form (harness flake): "
-                + json.dumps(best["case"], default=str)[:1500]
-            )
+            # A failure that three re-executions from the saved case do not show again cannot be handed over as a replay, so it is
+            # not reported as a violation; it is not an error of the run either.  It is counted (evidence: class
+            # "unreproduced-failure", inconclusive) and the case is kept under .work/ for inspection.
+            stats["inconclusive"] += 1
+            stats["classes"]["unreproduced-failure"] = stats["classes"].get("unreproduced-failure", 0) + 1
+            try:
+                WORK.mkdir(exist_ok=True)
+                (WORK / f"unreproduced-{check.pid}-{sub.name}-{case_hash(case)}.json").write_text(json.dumps(
+                    {"property": check.pid, "sub": sub.name, "case": case, "first_seen": [v.msg for v in (best["viol"] or [])][:3]}, default=str))
+            except OSError:
+                pass
+            print(f"NOTE: {check.pid}/{sub.name}: a failing case did not fail again when re-executed three times from its saved form "
+                  f"(counted inconclusive): {[v.msg for v in (best['viol'] or [])][:1]}", file=sys.stderr)
     stats["distinct_nontrivial"] = len(stats["nontrivial_hashes"])
     stats["nontrivial_hashes"] = sorted(stats["nontrivial_hashes"])
     return stats
